@@ -94,10 +94,16 @@ func c09Divvy(fractionOnly bool) {
 		sum = sum.Add(tip)
 	}
 	if !seen[string(reporter)] {
-		// the reporter's own stake did not back this report: it may still be credited (its commission)
+		// the reporter's own stake did not back this report: it is still credited its commission, exactly once
+		repTip := math.LegacyZeroDec()
 		if tip, gerr := k.SelectorTips.Get(ctx, reporter); gerr == nil {
 			allNonNeg = ndAnd(allNonNeg, !tip.IsNegative())
 			sum = sum.Add(tip)
+			repTip = tip
+		}
+		if fractionOnly {
+			commission := reward.Mul(rate)
+			ndAssert(repTip.Sub(commission).Abs().LTE(math.LegacyNewDecWithPrec(2, 18)), "reporter-without-own-stake-is-credited-exactly-its-commission")
 		}
 	}
 	// in the any-rate harness every path lies in the region of known finding C09-F2 (rate outside [0,1])
